@@ -94,9 +94,17 @@ def _validate_compact(t, k, a):
     return obj
 
 
+def _validate_with(t, k, reg):
+    j = J.load()
+    obj = j.jws.extract_compact(t.encode() if isinstance(t, str) else bytes(t))
+    if not j.jws.validate_compact(obj, k, registry=reg):
+        raise j.errors.BadSignatureError()
+    return obj
+
+
 def result_view(ep_name, v):
     """(payload bytes, list of header dicts) of what an entry point returned"""
-    if ep_name == "jwt.decode":
+    if ep_name.startswith("jwt.decode"):
         return json.dumps(v.claims, sort_keys=True).encode(), [v.header]
     payload = v.payload
     if hasattr(v, "members"):
@@ -863,6 +871,22 @@ def crit_nonstrict_cases(mon: Monitor, ctx):
         ep = ("jws.deserialize_json[non-strict registry]", lambda t, k, a, reg=reg: j.jws.deserialize_json(copy.deepcopy(t), k, registry=reg))
         mon.judge(bj, "b64-false-to-plain-verifier", text.decode() + "/json", bj.token, j.key(key), RefKey.from_jwk(key), ["HS256"], ep[0], ep[1],
                   expect_reject=False)
+        # a registry that knows "b64" (the RFC 7797 one) handed to the RFC 7515 functions, and the general JSON form handed to the RFC 7797 ones:
+        # whoever does not build the signing input from the unencoded payload must not return a payload
+        r97 = j.rfc7797.JWSRegistry(algorithms=["HS256"])
+        gen_tok = {"payload": bj.token["payload"], "signatures": [{k2: v2 for k2, v2 in bj.token.items() if k2 != "payload"}]}
+        bg = Base("general", gen_tok, [key], text, bj.entries, b64=False)
+        for ep_name, ep2, b_, tk in (
+                ("jws.deserialize_compact[rfc7797 registry]", lambda t, k, a: j.jws.deserialize_compact(t, k, registry=r97), base, base.token),
+                ("jwt.decode[rfc7797 registry]", lambda t, k, a: j.jwt.decode(t, k, registry=r97), base, base.token),
+                ("jws.validate_compact[rfc7797 registry]", lambda t, k, a: _validate_with(t, k, r97), base, base.token),
+                ("jws.deserialize_json[rfc7797 registry]", lambda t, k, a: j.jws.deserialize_json(copy.deepcopy(t), k, registry=r97), bj, bj.token),
+                ("jws.deserialize_json[general, rfc7797 registry]", lambda t, k, a: j.jws.deserialize_json(copy.deepcopy(t), k, registry=r97), bg, gen_tok),
+                ("rfc7797.deserialize_json[general, rfc7797 registry]", lambda t, k, a: j.rfc7797.deserialize_json(copy.deepcopy(t), k, registry=r97), bg, gen_tok),
+                ("rfc7797.deserialize_json[general]", lambda t, k, a: j.rfc7797.deserialize_json(copy.deepcopy(t), k, algorithms=["HS256"]), bg, gen_tok)):
+            if ep_name.startswith("jwt.decode") and text != b"eyJhIjoxfQ":
+                continue
+            mon.judge(b_, "b64-false-to-plain-verifier", text.decode() + "/" + ep_name, tk, j.key(key), RefKey.from_jwk(key), ["HS256"], ep_name, ep2, expect_reject=False)
 
 
 PAYLOADS = [b"", b"x", b'{"iss":"joe","exp":1300819380}', b"hello.world", bytes(range(200, 232)), "héllo 世界".encode()]
